@@ -19,6 +19,9 @@
                       Provides.changed (leaves the cache when its class changes) -> notify, reaches
                       directlyProvides / alsoProvides / directlyProvidedBy -> directly_provides, also_provides
                       directlyProvides(cls, ..) / provider / ClassProvides.__init__ -> class_provides, alloc_cprov
+                      alsoProvides(cls, ..) / noLongerProvides / Declaration.__sub__ -> class_also_provides,
+                                                            class_no_longer_provides, no_longer_provides, minus
+                      built-in types (BuiltinImplementationSpecifications) -> w_builtin, is_builtin
                       Specification.interfaces()         -> sref_interfaces / decl_interfaces
                       Specification.isOrExtends (via _implied) -> sref_implied / spec_isOrExtends
    NOT modelled (trusted): the pickle machinery itself.  A pickled value is the [reduced] term; GLOBAL /
@@ -82,8 +85,13 @@ Inductive reduced :=
 Record world := mkWorld {
   w_ifaces : list (gname * list nat);   (* interface i: its global name, its __bases__ (Interface implicit) *)
   w_classes : list (gname * list nat);  (* class c: its global name, its __bases__ (object implicit) *)
-  w_insts : list (nat * list Z)         (* instance o: its class, its plain attribute values *)
+  w_insts : list (nat * list Z);        (* instance o: its class, its plain attribute values *)
+  w_builtin : list nat                  (* classes that are built-in types (complex, frozenset, ...): their
+                                           attributes cannot be set, the spec lives in
+                                           BuiltinImplementationSpecifications, no __provides__ is installed *)
 }.
+
+Definition is_builtin (w : world) (c : nat) : bool := mem_nat c (w_builtin w).
 
 Definition iname (w : world) (i : nat) : gname := fst (nth i (w_ifaces w) (g_bad, [])).
 Definition ibases (w : world) (i : nat) : list nat := snd (nth i (w_ifaces w) (g_bad, [])).
@@ -166,7 +174,8 @@ Definition ckey := (nat * list nat)%type.
 Definition ckey_eqb (a b : ckey) : bool := Nat.eqb (fst a) (fst b) && lnat_eqb (snd a) (snd b).
 
 Record state := mkState {
-  st_impl : list (nat * impl_rec);    (* class -> cls.__dict__['__implemented__'] *)
+  st_impl : list (nat * impl_rec);    (* class -> cls.__dict__['__implemented__'], or, for a built-in
+                                         type, BuiltinImplementationSpecifications[cls] *)
   st_cprov_of : list (nat * nat);     (* class -> cls.__dict__['__provides__'] (index into st_cprovs) *)
   st_cprovs : list cprov_rec;         (* every ClassProvides object ever created *)
   st_provs : list prov_rec;           (* every Provides object ever created *)
@@ -207,7 +216,8 @@ Definition default_impl (w : world) (c : nat) : impl_rec :=
 
 (* declarations.py:implementedBy, for a class.  An existing spec is returned as is (identity).
    Otherwise: the specs of the bases first, then the new spec with inherit = _implements_cls = cls,
-   stored in the class, then the default ClassProvides(cls, type) if the class has none. *)
+   stored in the class (_implements_cls is assigned BEFORE that store is attempted, so built-in
+   types get it too), then the default ClassProvides(cls, type) if the class has none. *)
 Fixpoint implementedBy (fuel : nat) (w : world) (st : state) (c : nat) : state :=
   match assoc_nat c (st_impl st) with
   | Some _ => st
@@ -217,10 +227,13 @@ Fixpoint implementedBy (fuel : nat) (w : world) (st : state) (c : nat) : state :
       | S f =>
           let st1 := fold_left (implementedBy f w) (cbases w c) st in
           let st2 := set_impl st1 c (default_impl w c) in
-          match assoc_nat c (st_cprov_of st2) with
-          | Some _ => st2
-          | None => install_cprov (alloc_cprov st2 c []) c (List.length (st_cprovs st2))
-          end
+          (* cls.__implemented__ = spec raises TypeError for a built-in type: the spec is kept in
+             BuiltinImplementationSpecifications and no ClassProvides is installed *)
+          if is_builtin w c then st2
+          else match assoc_nat c (st_cprov_of st2) with
+               | Some _ => st2
+               | None => install_cprov (alloc_cprov st2 c []) c (List.length (st_cprovs st2))
+               end
       end
   end.
 
@@ -331,6 +344,31 @@ Definition class_provides (fuel : nat) (w : world) (st : state) (c : nat) (is : 
   let st := implementedBy fuel w st c in
   install_cprov (alloc_cprov st c is) c (List.length (st_cprovs st)).
 
+(* directlyProvidedBy(cls) as the flat list _normalizeargs makes of it: Declaration(provides.__bases__[:-1])
+   of the class's OWN ClassProvides (an inherited descriptor raises AttributeError: empty) *)
+Definition class_provided_by (fuel : nat) (w : world) (st : state) (c : nat) : list nat :=
+  match assoc_nat c (st_cprov_of st) with
+  | Some q => match nth_error (st_cprovs st) q with
+              | Some qr => decl_interfaces fuel w st (removelast (cp_bases qr))
+              | None => []
+              end
+  | None => []
+  end.
+
+(* Declaration.__sub__: drop what is or extends i *)
+Definition minus (fuel : nat) (w : world) (l : list nat) (i : nat) : list nat :=
+  filter (fun x => negb (mem_nat i (iface_anc fuel w x))) l.
+
+(* alsoProvides(cls, is...) = directlyProvides(cls, directlyProvidedBy(cls), is...); directlyProvides
+   normalises its arguments, so ClassProvides.__args holds interfaces only *)
+Definition class_also_provides (fuel : nat) (w : world) (st : state) (c : nat) (is : list nat) : state :=
+  class_provides fuel w st c (class_provided_by fuel w st c ++ is).
+
+(* noLongerProvides(cls, i) = directlyProvides(cls, directlyProvidedBy(cls) - i) (a ValueError raised
+   afterwards when i is still provided does not undo the assignment) *)
+Definition class_no_longer_provides (fuel : nat) (w : world) (st : state) (c i : nat) : state :=
+  class_provides fuel w st c (minus fuel w (class_provided_by fuel w st c) i).
+
 (* ------------------------------------------------------------------ instance declarations *)
 
 (* Declaration._add_interfaces_to_cls(interfaces, cls) *)
@@ -385,6 +423,9 @@ Definition directly_provided_by (fuel : nat) (w : world) (st : state) (o : nat) 
 Definition also_provides (fuel : nat) (w : world) (st : state) (o : nat) (is : list nat) : state :=
   directly_provides fuel w st o (directly_provided_by fuel w st o ++ is).
 
+Definition no_longer_provides (fuel : nat) (w : world) (st : state) (o i : nat) : state :=
+  directly_provides fuel w st o (minus fuel w (directly_provided_by fuel w st o) i).
+
 Definition referenced (st : state) (p : nat) : bool :=
   existsb (fun io => match in_provides io with Some p' => Nat.eqb p' p | None => false end) (st_insts st).
 
@@ -401,8 +442,11 @@ Inductive op :=
 | OpClassImplementsOnly (c : nat) (is : list nat)   (* classImplementsOnly / @implementer_only *)
 | OpClassImplementsFirst (c : nat) (i : nat)
 | OpClassProvides (c : nat) (is : list nat)         (* directlyProvides(cls, ..) / @provider *)
+| OpClassAlsoProvides (c : nat) (is : list nat)     (* alsoProvides(cls, ..) / directlyProvides(cls, directlyProvidedBy(cls), ..) *)
+| OpClassNoLongerProvides (c : nat) (i : nat)       (* noLongerProvides(cls, i) *)
 | OpDirectlyProvides (o : nat) (is : list nat)
 | OpAlsoProvides (o : nat) (is : list nat)
+| OpNoLongerProvides (o : nat) (i : nat)
 | OpGc.
 
 Definition step (fuel : nat) (w : world) (st : state) (x : op) : state :=
@@ -412,8 +456,11 @@ Definition step (fuel : nat) (w : world) (st : state) (x : op) : state :=
   | OpClassImplementsOnly c is => class_implements_only fuel w st c is
   | OpClassImplementsFirst c i => class_implements_first fuel w st c i
   | OpClassProvides c is => class_provides fuel w st c is
+  | OpClassAlsoProvides c is => class_also_provides fuel w st c is
+  | OpClassNoLongerProvides c i => class_no_longer_provides fuel w st c i
   | OpDirectlyProvides o is => directly_provides fuel w st o is
   | OpAlsoProvides o is => also_provides fuel w st o is
+  | OpNoLongerProvides o i => no_longer_provides fuel w st o i
   | OpGc => gc st
   end.
 
@@ -421,7 +468,7 @@ Definition run (fuel : nat) (w : world) (ops : list op) : state := fold_left (st
 
 Definition is_class_op (x : op) : bool :=
   match x with
-  | OpDirectlyProvides _ _ | OpAlsoProvides _ _ | OpGc => false
+  | OpDirectlyProvides _ _ | OpAlsoProvides _ _ | OpNoLongerProvides _ _ | OpGc => false
   | _ => true
   end.
 
